@@ -45,7 +45,9 @@ CLAUSES = ["C17 Parse accepts a non-boolean CEL rule or refuses a valid probe li
            "C17 number of reported failures differs from the number of failing probes"]
 PASS_CLAUSES = ["an object is recorded as failed although it passes, or passes although a probe that selects it fails",
                 "the number of recorded failures differs from the number of failing objects",
-                "the result is zero (Available) although an object fails, or not zero although all pass"]
+                "the result is zero (Available) although an object fails, or not zero although all pass",
+                "a selected object with a stale status.observedGeneration, or with a stale entry of a probed condition type "
+                "anywhere in status.conditions, is not recorded as failed"]
 # former known finding (fixed in /repo by 9b2e4f3); a recurrence is reported under the same identity
 SHADOWED = "C17 stale condition entry shadowed by an earlier entry of the same type passes"
 
@@ -83,6 +85,21 @@ def gen_conditions(r, gen, cov):
         return False, None
     if shape != "list":
         return True, {"null": None, "string": "conds", "map": {"type": "Available", "status": "True"}, "empty": []}[shape]
+    g = gen if isinstance(gen, int) and not isinstance(gen, bool) else 0
+    if r.random() < 0.06:
+        # two entries of one type, one current and one stale, separated / preceded by entries of other types
+        cov["conditions:separated-duplicate"] += 1
+        t = r.choice(COND_TYPES)
+        rest = [x for x in COND_TYPES if x != t] + ["Degraded"]
+        mk = lambda og, st: {"type": t, "status": st, "observedGeneration": og}
+        pair = [mk(g, "True"), mk(g + r.choice([1, -1]), r.choice(STATUSES))]
+        if r.random() < 0.5:
+            pair.reverse()
+        other = lambda: r.choice([{"type": r.choice(rest), "status": r.choice(STATUSES)}, {"type": r.choice(rest), "status": "True",
+                                  "observedGeneration": g}, "x", None] if r.random() < 0.15 else
+                                 [{"type": r.choice(rest), "status": r.choice(STATUSES)}])
+        return True, ([other() for _ in range(r.choice([0, 1, 1, 2]))] + [pair[0]] +
+                      [other() for _ in range(r.choice([0, 1, 1, 2]))] + [pair[1]] + [other() for _ in range(r.choice([0, 0, 1]))])
     n = wchoice(r, [(1, 4), (2, 4), (3, 3), (4, 1)])
     unique = r.random() < 0.88
     types = r.sample(COND_TYPES, min(n, 3)) if unique else [r.choice(COND_TYPES) for _ in range(n)]
@@ -293,6 +310,25 @@ def dep(gen=2, status=None, labels=None, av="apps/v1", kind="Deployment"):
     return o
 
 
+def separated_duplicates(gen=4):
+    """status.conditions lists with two entries of type Available, one current and one stale, in both orders, with 0-2
+    entries of other types before and between them (and one variant with a trailing entry)"""
+    others = [{"type": "Progressing", "status": "True"}, {"type": "Ready", "status": "False", "observedGeneration": gen}]
+    out = []
+    for stale_first in (False, True):
+        for before in (0, 1, 2):
+            for between in (0, 1, 2):
+                for stale_status in ("True", "False"):
+                    fresh = {"type": "Available", "status": "True", "observedGeneration": gen}
+                    stale = {"type": "Available", "status": stale_status, "observedGeneration": gen - 1}
+                    first, second = (stale, fresh) if stale_first else (fresh, stale)
+                    cs = others[:before] + [first] + list(reversed(others))[:between] + [second]
+                    if before == 1 and between == 1:
+                        cs = cs + [{"type": "Degraded", "status": "False"}]
+                    out.append([dict(c) for c in cs])
+    return out
+
+
 def fixed():
     avail = lambda og=None, st="True", t="Available": dict(
         {"type": t, "status": st}, **({} if og is None else {"observedGeneration": og}))
@@ -333,6 +369,8 @@ def fixed():
          "object": dep(status={"a": 1})},
         {"probes": [osp([cond(t="", s="")])], "object": dep(status={"conditions": [{}, {"type": "", "status": ""}]})},
         {"probes": [osp([cond()])], "object": dep(gen="2", status={"observedGeneration": 1, "conditions": [avail(0)]})},
+    ] + [{"probes": [osp([cond()], kind=None if k % 5 == 0 else ("apps", "Deployment"))],
+          "object": dep(gen=4, status={"conditions": cs})} for k, cs in enumerate(separated_duplicates())] + [
         # a failing CEL probe whose message is empty / blank, alone, in a list, next to others, and duplicates
         {"probes": [osp([cel(1, "")])], "object": dep()},
         {"probes": [osp([cel(1, "")], kind=None)], "object": dep()},
@@ -652,7 +690,14 @@ AVAIL = {"type": "Available", "status": "True"}
 def gen_phase(seed, tier, cov):
     r = vlib.rng(seed, "C17/phase")
     ok_w = widget(0, status={"observedGeneration": 1, "a": 1, "conditions": [AVAIL]})
+    ok_w2 = widget(1, status={"observedGeneration": 1, "conditions": [AVAIL]})
     out = []
+    for k, cs in enumerate(separated_duplicates()):
+        # a stale duplicate of the probed condition type, separated from the current entry by other types
+        out.append({"probes": [osp([cond()], kind=WK)] + ([osp([cond("Ready", "False")], kind=None)] if k % 4 == 0 else []),
+                    "objects": [widget(0, gen=4, status={"observedGeneration": 4, "conditions": cs})] +
+                               ([ok_w2] if k % 6 == 0 else []),
+                    "paused": k % 3 == 2})
     for paused in (False, True):
         out += [
             # the only failing probe has an empty / blank message
@@ -747,7 +792,7 @@ def stage_phase(run, tier, seed, cov, rp):
         for it in po["items"]:
             if it["failed"] and it.get("entry", "x").endswith(": "):
                 dist["failed-with-empty-messages-only"] += 1
-    res, logs = vlib.judge_cases("C17", IMPORTS, "judge_pass", terms, 5, shard=45 if len(terms) < 1000 else 150, tag="phase")
+    res, logs = vlib.judge_cases("C17", IMPORTS, "judge_pass", terms, 6, shard=45 if len(terms) < 1000 else 150, tag="phase")
     for l in logs:
         run.violation("corr:C17/coq-eval", {"correspondence": "coq evaluation failed (phase stage)", "log": l}, False)
     run.cov["evaluations"] += len(terms)
@@ -768,6 +813,36 @@ def stage_phase(run, tier, seed, cov, rp):
     run.cov["phase_stage"] = dict(sorted(dist.items()))
     run.cov["samples"] = run.cov.get("samples", []) + [
         {"stage": "phase", "scenario": scs[i], "impl": {k: v for k, v in outs[i]["obs"].items() if k != "items"}} for i in idx[:1]]
+
+
+def probe_stage(run, pid, tier, seed, identity):
+    """For other checks (C03, C06): what the phase reconciler records from the prober - the real
+    PhaseReconciler.ReconcilePhase with the prober of the real Parse on generated probe lists (messages text / empty /
+    blank / duplicate) and objects, judged by C17Corr.judge_pass (an object is recorded as failing iff a selecting probe
+    fails; the result is zero iff nothing failed). Failures are reported under `identity` for property `pid`."""
+    import collections as _c
+    cov = _c.Counter()
+    scs = gen_phase(seed, "quick", cov)[: 200 if tier == "quick" else 500]
+    outs = vlib.run_harness("probephase", scs, par=8)
+    terms, idx = [], []
+    for i, (sc, o) in enumerate(zip(scs, outs)):
+        if "obs" not in o or o["obs"].get("parseErr") or pass_problem(o["obs"]):
+            continue
+        terms.append(c_pass(sc["probes"], o["obs"]))
+        idx.append(i)
+    res, logs = vlib.judge_cases(pid, IMPORTS, "judge_pass", terms, 6, shard=45, tag="probe")
+    for l in logs:
+        run.violation("corr:%s/coq-eval" % pid, {"correspondence": "coq evaluation failed (probe stage)", "log": l}, False)
+    n = 0
+    for i, r in zip(idx, res):
+        if r is None:
+            continue
+        n += 1
+        if not r[1]:
+            run.violation(identity, {"scenario": scs[i], "impl": outs[i]["obs"], "stage": "probephase (checks/C17.py)"}, True)
+    run.cov["probe_stage"] = {"passes": n}
+    run.cov["evaluations"] = run.cov.get("evaluations", 0) + n
+    return n
 
 
 def gen_history(seed, tier, cov):
@@ -859,7 +934,7 @@ def stage_history(run, tier, seed, cov, rp):
             dist["op:" + st["op"] + (":orphan" if st.get("orphan") else "")] += 1
         dist["verdict:available"] += sum(1 for po in ho["passes"] if po["zero"])
         dist["verdict:probe-failure"] += sum(1 for po in ho["passes"] if not po["zero"])
-    res, logs = vlib.judge_cases("C17", IMPORTS, "judge_history", terms, 5, shard=6 if len(terms) < 100 else 15, tag="history")
+    res, logs = vlib.judge_cases("C17", IMPORTS, "judge_history", terms, 6, shard=6 if len(terms) < 100 else 15, tag="history")
     for l in logs:
         run.violation("corr:C17/coq-eval", {"correspondence": "coq evaluation failed (history stage)", "log": l}, False)
     run.cov["evaluations"] += len(terms)
